@@ -110,8 +110,9 @@ def run(spec, cfgname, post_depth=0):
     if val is None:
         res["outcome"] = "no-value:%s" % status
         return res
-    if status not in ("optimal",):
-        res["outcome"] = "not-judged:%s" % status
+    if status not in ("optimal",) or r.get("first_status") not in (None, "optimal"):
+        # (with a heuristic the multipliers are those of the FIRST solver call: it must have been accurate as well)
+        res["outcome"] = "not-judged:%s" % (status if status != "optimal" else "first-solve-" + str(r.get("first_status")))
         return res
     res["value"] = float(val)
     tol = solving.tolerance(be, cfg["solver"])
